@@ -496,6 +496,9 @@ package grpcgcp
 //@ func (mc *monitoredConn) monitor
 //@   requires ctx != nil
 //@   loop 1 blocking
+// no state change is lost: the state reported to the MultiEndpoints is the state the monitor then waits to change
+//@   callsite notify#1 asserts [C15.notify-read-state] $arg1 == $call("GetState#1")
+//@   callsite WaitForStateChange#1 asserts [C15.wait-on-notified-state] $arg2 == $call("GetState#1")
 //@ func (mc *monitoredConn) notify
 //@ pred gmeSame(gme *GCPMultiEndpoint) := gme.defaultName == old(gme.defaultName) && (forall n string :: {n in gme.mes} (n in gme.mes) == old(n in gme.mes) && gme.mes[n] == old(gme.mes[n])) && (forall k int :: {$meHas[k]} $meHas[k] == old($meHas)[k])
 //@ pred poolsSame(gme *GCPMultiEndpoint) := forall e string :: {e in gme.pools} (e in gme.pools) == old(e in gme.pools) && gme.pools[e] == old(gme.pools[e])
